@@ -6,6 +6,7 @@ import (
 	"context"
 	"fmt"
 	"net"
+	"sort"
 	"strconv"
 	"sync"
 	"time"
@@ -105,10 +106,17 @@ func (g *gen) e2eRequest(i int) *base.Request {
 	}
 	delete(req.Header, "Session")
 	delete(req.Header, "Cseq")
-	req.Header["CSeq"] = base.HeaderValue{strconv.Itoa(i + 1)}
-	if entries(req.Header) >= maxEntries {
-		req.Body = nil
+	delete(req.Header, "Content-Length")
+	delete(req.Header, "CSeq")
+	for entries(req.Header) > maxEntries-2 { // room for CSeq and Content-Length
+		keys := make([]string, 0, len(req.Header))
+		for k := range req.Header {
+			keys = append(keys, k)
+		}
+		sort.Strings(keys)
+		delete(req.Header, keys[0])
 	}
+	req.Header["CSeq"] = base.HeaderValue{strconv.Itoa(i + 1)}
 	if len(req.Body) > 20000 {
 		req.Body = req.Body[:20000]
 	}
@@ -120,11 +128,13 @@ func (g *gen) e2eResponse() *base.Response {
 	delete(res.Header, "CSeq")
 	delete(res.Header, "Server")
 	delete(res.Header, "Content-Length")
-	for entries(res.Header) > maxEntries-3 {
+	for entries(res.Header) > maxEntries-3 { // room for CSeq, Server and Content-Length
+		keys := make([]string, 0, len(res.Header))
 		for k := range res.Header {
-			delete(res.Header, k)
-			break
+			keys = append(keys, k)
 		}
+		sort.Strings(keys)
+		delete(res.Header, keys[0])
 	}
 	if len(res.Body) > 20000 {
 		res.Body = res.Body[:20000]
